@@ -9,6 +9,7 @@ mod refdl;
 mod rng;
 mod rparse;
 mod shrink;
+mod store;
 
 use ctx::{Ctx, Meta, Report, Tier};
 use std::process::{Command, Stdio};
